@@ -22,7 +22,8 @@ Rank == [PO |-> 1, PK |-> 2, VP |-> 3, KO |-> 4, VK |-> 5]
 Kinds == DOMAIN Rank
 
 VARIABLES sig,       \* Seq of [name, kind, dflt]
-          ctx,       \* [mode \in {"none","byname","positional","view"}, name]  name: the context parameter ("na" if none)
+          ctx,       \* [mode \in {"none","byname","positional","view"}, name, xname]  name: the context parameter ("na" if none);
+                     \* xname: a defaulted parameter taken out by the validator's / extractor's exclusion predicate ("na" if none)
           flavour,   \* "func" | "coro" | "view"
           route,     \* how the method reached the dispatcher: "direct" (dispatcher.add / registry.view) | "merged" (own registry, then add_methods)
           inp,       \* [k |-> "pos", n |-> 0..MaxPos, keys |-> {}] | [k |-> "named", n |-> 0, keys |-> SUBSET KeyNames]
@@ -42,13 +43,15 @@ SigOf(f) == [i \in DOMAIN f |-> [name |-> AllNames[i], kind |-> f[i][1], dflt |-
 SigsOfLen(n) == {s \in {SigOf(f) : f \in [1..n -> KindSet \X BOOLEAN]} : Grammatical(s)}
 
 \* admissible context designations for a signature and flavour
-CtxChoices(s, fl) ==
+CtxModes(s, fl) ==
     IF fl = "view" THEN {[mode |-> "none", name |-> "na"], [mode |-> "view", name |-> "na"]}
     ELSE {[mode |-> "none", name |-> "na"]}
          \cup {[mode |-> "byname", name |-> s[i].name] : i \in {j \in DOMAIN s : s[j].kind \in {"PK", "KO"}}}
          \cup (IF Len(s) >= 1 /\ s[1].kind \in {"PO", "PK"} THEN {[mode |-> "positional", name |-> s[1].name]} ELSE {})
-         \* a parameter with a default taken out by the validator's / extractor's exclusion predicate (dependency injection)
-         \cup {[mode |-> "excl", name |-> s[i].name] : i \in {j \in DOMAIN s : s[j].kind \in {"PK", "KO"} /\ s[j].dflt}}
+\* ... combined with: no excluded parameter, or one defaulted positional-or-keyword / keyword-only parameter (not the context one)
+\* removed by the exclusion predicate (dependency injection)
+CtxChoices(s, fl) == {[mode |-> c.mode, name |-> c.name, xname |-> x] : c \in CtxModes(s, fl),
+                        x \in {"na"} \cup {s[i].name : i \in {j \in DOMAIN s : s[j].kind \in {"PK", "KO"} /\ s[j].dflt}}}
 Inputs == {i \in {[k |-> "pos", n |-> n, keys |-> {}] : n \in 0..MaxPos}
                      \cup {[k |-> "named", n |-> 0, keys |-> S] : S \in SUBSET KeyNames} : i.k \in InputKinds}
 
@@ -57,12 +60,13 @@ NoRecv == [ran |-> FALSE, vctx |-> "na", rec |-> [p1 |-> "na", p2 |-> "na", p3 |
 InitWith(s, c, fl, rt, i) == sig = s /\ ctx = c /\ flavour = fl /\ route = rt /\ inp = i /\ pc = "recv"
                          /\ received = NoRecv /\ reply = "none"
 Init == \E n \in 0..MaxP : \E s \in SigsOfLen(n), fl \in {"func", "coro", "view"}, rt \in {"direct", "merged"}, i \in Inputs :
-            \E c \in CtxChoices(s, fl) : InitWith(s, c, fl, rt, i)
+            \E c \in CtxChoices(s, fl) : c.xname # c.name /\ InitWith(s, c, fl, rt, i)
 
 (***************************** call binding ********************************)
 \* the signature the client's params are bound against: the context parameter is taken out
-Removed == {"byname", "positional", "excl"}      \* modes that take a parameter out of the signature the client binds against
-Eff == SelectSeq(sig, LAMBDA p : ~(ctx.mode \in Removed /\ p.name = ctx.name))
+\* parameters taken out of the signature the client binds against: the context parameter and the excluded one
+IsRemoved(x) == (ctx.mode \in {"byname", "positional"} /\ x = ctx.name) \/ (ctx.xname # "na" /\ x = ctx.xname)
+Eff == SelectSeq(sig, LAMBDA p : ~IsRemoved(p.name))
 PosPars == SelectSeq(Eff, LAMBDA p : p.kind \in {"PO", "PK"})
 HasKind(k) == \E i \in DOMAIN Eff : Eff[i].kind = k
 ParNamed(x) == {i \in DOMAIN Eff : Eff[i].name = x}
@@ -80,7 +84,7 @@ NamedVerdict(S) ==
         missing   == \E i \in DOMAIN Eff : Eff[i].kind \in {"PO", "PK", "KO"} /\ ~Eff[i].dflt /\ ~(Eff[i].name \in S /\ fills(Eff[i].name))
     IN IF strays # {} /\ ~HasKind("VK") THEN "fail"
        ELSE IF \E x \in strays : KindOf(x) = "PO" THEN "dontcare"       \* inspect.Signature.bind and a real call disagree (Appendix B)
-       ELSE IF ctx.mode \in Removed /\ ctx.name \in strays THEN "dontcare"   \* client names the context parameter, **kw present (3.3)
+       ELSE IF \E x \in strays : IsRemoved(x) THEN "dontcare"   \* client names the context parameter, **kw present (3.3)
        ELSE IF missing THEN "fail"
        ELSE "ok"
 Verdict == IF inp.k = "pos" THEN PosVerdict(inp.n) ELSE NamedVerdict(inp.keys)
@@ -92,7 +96,7 @@ Rec(name) ==
     IF ps = {} THEN "na"
     ELSE LET p == sig[CHOOSE i \in ps : TRUE] IN
          IF ctx.mode \in {"byname", "positional"} /\ ctx.name = name THEN "CTX"
-         ELSE IF ctx.mode = "excl" /\ ctx.name = name THEN "DEFAULT"
+         ELSE IF ctx.xname = name THEN "DEFAULT"
          ELSE IF p.kind = "VP" THEN "VA" ELSE IF p.kind = "VK" THEN "KW"
          ELSE IF inp.k = "pos" THEN (IF p.kind \in {"PO", "PK"} /\ PosIndex(name) <= inp.n THEN PosVal[PosIndex(name)] ELSE "DEFAULT")
          ELSE (IF name \in inp.keys /\ p.kind \in {"PK", "KO"} THEN NamedVal[name] ELSE "DEFAULT")
